@@ -465,25 +465,50 @@ pub fn value_type_to_string(value: &Option<ValueType>) -> String {
     }
 }
 
-#[derive(Debug, Clone, Copy, PartialEq, PartialOrd)]
+#[derive(Debug, Clone, Copy)]
 pub struct Float(pub f64);
 
+impl PartialEq for Float {
+    fn eq(&self, other: &Self) -> bool {
+        self.cmp(other) == Ordering::Equal
+    }
+}
+
 impl Eq for Float {}
+
+impl PartialOrd for Float {
+    fn partial_cmp(&self, other: &Self) -> Option<Ordering> {
+        Some(self.cmp(other))
+    }
+}
+
 impl Ord for Float {
+    // Total order: numeric order (-0.0 equals 0.0), all NaNs are equal to each other and sorted last.
     fn cmp(&self, other: &Self) -> Ordering {
-        if self.0 < other.0 {
-            Ordering::Less
-        } else if self.0 > other.0 {
-            Ordering::Greater
-        } else {
-            Ordering::Equal
+        match self.0.partial_cmp(&other.0) {
+            Some(ordering) => ordering,
+            None => {
+                match (self.0.is_nan(), other.0.is_nan()) {
+                    (true, true) => Ordering::Equal,
+                    (true, false) => Ordering::Greater,
+                    _ => Ordering::Less
+                }
+            }
         }
     }
 }
 
 impl Hash for Float {
+    // Must agree with Eq: -0.0 and 0.0 hash equally, so do all NaNs.
     fn hash<H: Hasher>(&self, state: &mut H) {
-        let bits: u64 = unsafe { std::mem::transmute(self.0) };
+        let bits = if self.0 == 0.0 {
+            0.0f64.to_bits()
+        } else if self.0.is_nan() {
+            f64::NAN.to_bits()
+        } else {
+            self.0.to_bits()
+        };
+
         bits.hash(state)
     }
 }
